@@ -7,7 +7,7 @@ import numpy as np
 
 import common as C
 import gen_emp as G
-from corr_C03 import close, same_value
+from corr_C03 import as_container, close, same_value
 
 INF = float("inf")
 TOL = Fr(1, 10 ** 12)
@@ -51,6 +51,43 @@ def bands(ED, ys, conf, a, b, method, seed):
     return out, state
 
 
+def ext_key(v):
+    """order key of an extended value (float, +-inf, or Fraction)"""
+    if isinstance(v, float) and abs(v) == INF:
+        return (1 if v > 0 else -1, Fr(0))
+    return (0, Fr(v))
+
+
+def extreme_levels(rx, k=2):
+    """(n, q, minimize) whose best-of-n level -- q**(1/n) when maximising, 1-(1-q)**(1/n) when minimising -- lies within 1e-16 .. 1e-7
+    (mostly 1e-13 .. 1e-9) of 0 or of 1: the quantifier is "every n > 0 real, every q in [0, 1]", and that is where a tolerance in the
+    inversion shows.  The level is reached either through q (tiny q, or q next to 1, with an ordinary n) or through n (an ordinary q
+    with n in about 0.01 .. 0.1, or 1e7 .. 1e14)."""
+    out = []
+    for side in (0, 1):
+        for mn in (False, True):
+            for _ in range(k):
+                t = 10.0 ** (rx.uniform(-13, -9) if rx.random() < 0.7 else rx.uniform(-16, -7))
+                if rx.random() < 0.5:      # through q
+                    nn = rx.choice([1, 1, 0.5, 2.5, rx.uniform(0.2, 4)])
+                    if not mn:
+                        q = t ** nn if side == 0 else float(np.exp(nn * np.log1p(-t)))
+                    else:
+                        q = float(-np.expm1(nn * np.log1p(-t))) if side == 0 else 1.0 - t ** nn
+                    how = "q"
+                else:                      # through n
+                    q = rx.choice([0.5, 0.25, 0.75, rx.uniform(0.05, 0.95)])
+                    if not mn:
+                        nn = float(np.log(q) / np.log(t)) if side == 0 else float(np.log(q) / np.log1p(-t))
+                    else:
+                        nn = float(np.log1p(-q) / np.log1p(-t)) if side == 0 else float(np.log1p(-q) / np.log(t))
+                    how = "n"
+                q = min(1.0, max(0.0, float(q)))
+                if nn > 0 and nn == nn and nn != INF:
+                    out.append((nn, q, mn, side, how))
+    return out
+
+
 def run(seed, tier, replay=None):
     from opda.nonparametric import EmpiricalDistribution as ED
     rep = C.Report("C02", seed, tier)
@@ -62,10 +99,27 @@ def run(seed, tier, replay=None):
     plan += [(["ld_equal_tailed", "ld_highest_density"][i % 2], rng.choice([2, 3, 4, 5, 6] if tier == "quick" else [2, 3, 5, 8, 12]))
              for i in range(n_ld)]
     plan += [("ld_equal_tailed", 1)]
+    n_main = len(plan)
+    # Strata added later draw from generators of their own (the stream of the cases above does not move).
+    # (1) the container the SAMPLE arrives in: integer-valued observations, not in ascending order, handed over as a list of Python ints,
+    #     as an integer ndarray of every width (signed and unsigned) that holds the values, and as float32 -- the bands are about the numbers
+    rng_c = C.rng_for("C02/sample-containers", seed)
+    n_cont = 36 if tier == "quick" else 400
+    plan += [(rng_c.choice(["dkw", "ks"]) if i % 12 else ["ld_equal_tailed", "ld_highest_density"][(i // 12) % 2],
+              rng_c.choice([2, 3, 4, 5, 7, 10, 16, 25, 40]) if i % 12 else rng_c.choice([2, 3, 5])) for i in range(n_cont)]
+    # (2) best-of-n levels next to 0 and next to 1 (every case)
+    rng_x = C.rng_for("C02/extreme-levels", seed)
     reqs, meta = [], []
     for ci, (method, n) in enumerate(plan):
-        ys = G.gen_values(rng, n, allow_inf=False)
-        ys = [float(np.clip(v, -1e100, 1e100)) for v in ys]
+        containers = []
+        if ci < n_main:
+            ys = G.gen_values(rng, n, allow_inf=False)
+            ys = [float(np.clip(v, -1e100, 1e100)) for v in ys]
+        else:
+            ys, rlabel = G.gen_int_values(rng_c, n)
+            containers = C.number_containers(ys, rng_c, k=99)
+            rep.count("sample_container:range=" + rlabel)
+            rep.count("sample_container:" + ("ascending" if all(x <= y for x, y in zip(ys, ys[1:])) else "unsorted"))
         a, b = G.gen_bounds(rng, ys)
         conf = rng.choice([0.0, 1.0, 0.5, 0.9, 0.95, 1e-12, 1 - 1e-12, rng.random(), rng.random()])
         gseed = rng.randrange(2 ** 31)
@@ -95,9 +149,11 @@ def run(seed, tier, replay=None):
             if not (Fr(float(L[j])) <= Fr(j, n) + TOL and Fr(j, n) <= Fr(float(U[j])) + TOL):
                 rep.violate(what="level tables do not bracket k/n", input=dict(inp, k=j), observed=[float(L[j]), float(U[j])])
         qs = G.gen_queries(rng, ys, a, b)
+        cdf_ri = {}
         for name, d, lev in (("lo", lo, L), ("pt", pt, M), ("hi", hi, U)):
             reqs.append(("band.cdf", f"{band_line(ys, a, b, lev)} {C.flist(qs)}"))
-            meta.append(dict(ci=ci, kind="cdf", name=name, d=d, qs=qs, inp=inp))
+            cdf_ri[name] = len(reqs) - 1
+            meta.append(dict(ci=ci, kind="cdf", name=name, d=d, qs=qs, inp=inp, ri=len(reqs) - 1))
         # quantile curves: band ordering, and each curve against the band model's ppf at the specified level
         lv = []
         for nn in (1, 2.5, rng.uniform(0.2, 40)):
@@ -105,9 +161,17 @@ def run(seed, tier, replay=None):
                 for mn in (False, True):
                     level = float(1 - (1 - q) ** (1 / nn)) if mn else float(q ** (1 / nn))
                     lv.append((nn, q, mn, min(1.0, max(0.0, level))))
-        for name, d, lev in (("lo", lo, L), ("pt", pt, M), ("hi", hi, U)):
+        for nn, q, mn, side, how in extreme_levels(rng_x, k=1 if tier == "quick" else 3):
+            level = float(1 - (1 - q) ** (1 / nn)) if mn else float(q ** (1 / nn))
+            level = min(1.0, max(0.0, level))
+            lv.append((nn, q, mn, level))
+            d0 = level if side == 0 else 1.0 - level
+            rep.count("qtc_level:%s_by_%s:%s" % ("next_to_0" if side == 0 else "next_to_1", how,
+                                                 "exactly_0_or_1" if d0 == 0 else "within_1e%d" % int(np.ceil(np.log10(d0)))))
+        mid = [float(x) / 2 + float(y) / 2 for x, y in zip(L, U)]       # a distribution function inside the band
+        for name, d, lev in (("lo", lo, L), ("pt", pt, M), ("hi", hi, U), ("inside", None, mid)):
             reqs.append(("band.ppf", f"{band_line(ys, a, b, lev)} {C.flist([x[3] for x in lv])}"))
-            meta.append(dict(ci=ci, kind="qtc", name=name, d=d, lv=lv, inp=inp))
+            meta.append(dict(ci=ci, kind="qtc" if d is not None else "inside", name=name, d=d, lv=lv, inp=inp, ri=len(reqs) - 1, hi=hi, lo=lo))
         # direct clauses on the code's output
         yq = np.array(qs)
         cl, cp, ch = lo.cdf(yq), pt.cdf(yq), hi.cdf(yq)
@@ -126,6 +190,38 @@ def run(seed, tier, replay=None):
                 rep.violate(what="hi.quantile_tuning_curve <= pt.quantile_tuning_curve <= lo.quantile_tuning_curve fails",
                             input=dict(inp, n=nn, q=q, minimize=mn), observed=[float(t_hi), float(t_pt), float(t_lo)],
                             call="EmpiricalDistribution.quantile_tuning_curve")
+        qtc_ri = {mt["name"]: mt["ri"] for mt in meta[-4:]}
+        meta[-1].update(ri_lo=qtc_ri["lo"], ri_hi=qtc_ri["hi"])
+        # the same sample in other containers: judged by the same exact model (the replies of the requests above), plus the direct clauses
+        for label, obj in (containers if method in ("dkw", "ks") else containers[:2]):
+            inp_c = dict(inp, sample_container=label, ys_values=[int(v) if label != "float32" else v for v in ys])
+            rep.count("sample_container=" + label)
+            try:
+                (lo_c, pt_c, hi_c), _ = bands(ED, obj, conf, a, b, method, gseed)
+            except Exception as e:
+                rep.violate(what="confidence_bands raised on a valid input", error=repr(e), input=inp_c, call="EmpiricalDistribution.confidence_bands")
+                continue
+            for name, d in (("lo", lo_c), ("pt", pt_c), ("hi", hi_c)):
+                meta.append(dict(ci=ci, kind="cdf", name=name, d=d, qs=qs, inp=inp_c, ri=cdf_ri[name]))
+                meta.append(dict(ci=ci, kind="qtc", name=name, d=d, lv=lv, inp=inp_c, ri=qtc_ri[name]))
+            meta.append(dict(ci=ci, kind="inside", name="inside", d=None, lv=lv, inp=inp_c, ri=qtc_ri["inside"], ri_lo=qtc_ri["lo"],
+                             ri_hi=qtc_ri["hi"], hi=hi_c, lo=lo_c))
+            cl_c, cp_c, ch_c = lo_c.cdf(yq), pt_c.cdf(yq), hi_c.cdf(yq)
+            rep.case(("bracket", label, tuple(inp["ys"]), inp["a"], inp["b"], conf, method))
+            if np.any(cl_c > cp_c + 1e-12) or np.any(cp_c > ch_c + 1e-12):
+                k = int(np.argmax(np.maximum(cl_c - cp_c, cp_c - ch_c)))
+                rep.violate(what="lo.cdf(y) <= pt.cdf(y) <= hi.cdf(y) fails", input=dict(inp_c, y=C.fhex(qs[k]), y_float=qs[k]),
+                            observed=[float(cl_c[k]), float(cp_c[k]), float(ch_c[k])], call="EmpiricalDistribution.confidence_bands")
+            if not (pt_c == ED(obj, a=a, b=b)):
+                rep.violate(what="the point estimate is not the empirical distribution of the sample with the given bounds", input=inp_c)
+            for nn, q, mn, _ in lv:
+                with warnings.catch_warnings():
+                    warnings.simplefilter("ignore")
+                    t_hi, t_pt, t_lo = (d.quantile_tuning_curve(nn, q=q, minimize=mn) for d in (hi_c, pt_c, lo_c))
+                if not (t_hi <= t_pt <= t_lo):
+                    rep.violate(what="hi.quantile_tuning_curve <= pt.quantile_tuning_curve <= lo.quantile_tuning_curve fails",
+                                input=dict(inp_c, n=nn, q=q, minimize=mn), observed=[float(t_hi), float(t_pt), float(t_lo)],
+                                call="EmpiricalDistribution.quantile_tuning_curve")
         # rank only: a permutation and a strictly increasing map, same generator seed
         if method in ("dkw", "ks") or ci % 2 == 0:
             perm = list(range(n))
@@ -162,8 +258,10 @@ def run(seed, tier, replay=None):
                 rep.violate(what="raising the confidence narrows the band", input=dict(inp, confidence2=conf2),
                             call="EmpiricalDistribution.confidence_bands")
     replies = drv.run(reqs)
-    for mt, r in zip(meta, replies):
+    for mt in meta:
+        r = replies[mt["ri"]]
         inp, d = mt["inp"], mt["d"]
+        cont = inp.get("sample_container")
         if r is None:
             rep.disagree(op="band." + mt["kind"], note="model rejected a valid input", input=inp)
             continue
@@ -171,7 +269,7 @@ def run(seed, tier, replay=None):
             impl = d.cdf(np.array(mt["qs"]))
             for y, iv, mv in zip(mt["qs"], impl, r):
                 mv = C.parse_ext(mv)
-                rep.case(("cdf", mt["name"], tuple(inp["ys"]), inp["a"], inp["b"], inp["confidence"], inp["method"], y),
+                rep.case(("cdf", cont, mt["name"], tuple(inp["ys"]), inp["a"], inp["b"], inp["confidence"], inp["method"], y),
                          sample=dict(op=f"{mt['name']}.cdf", ys=inp["ys_float"], a=inp["a_float"], b=inp["b_float"], confidence=inp["confidence"],
                                      method=inp["method"], y=y, model=str(mv), impl=float(iv)))
                 if not close(iv, mv):
@@ -179,6 +277,25 @@ def run(seed, tier, replay=None):
                                      f"(levels from the documented construction) to 1e-12",
                                 input=dict(inp, y=C.fhex(y), y_float=y, band=mt["name"]), expected=str(mv), observed=float(iv),
                                 call="EmpiricalDistribution.confidence_bands(...).cdf")
+        elif mt["kind"] == "inside":
+            # "any CDF lying inside the CDF band has its tuning curve inside the tuning-curve band": F with the levels (L+U)/2 on the
+            # same points lies inside the band; its exact quantile must lie between the code's hi and lo curves (levels within 1e-12
+            # of a level of lo or hi are the property's own exclusion)
+            r_lo, r_hi = replies[mt["ri_lo"]], replies[mt["ri_hi"]]
+            for i, (nn, q, mn, level) in enumerate(mt["lv"]):
+                mv = C.parse_ext(r[2 * i])
+                if r_lo is None or r_hi is None or min(C.parse_ext(r_lo[2 * i + 1]), C.parse_ext(r_hi[2 * i + 1])) <= TOL:
+                    rep.skip("qtc_level_within_1e-12_of_a_band_level")
+                    continue
+                with warnings.catch_warnings():
+                    warnings.simplefilter("ignore")
+                    t_hi, t_lo = (float(x.quantile_tuning_curve(nn, q=q, minimize=mn)) for x in (mt["hi"], mt["lo"]))
+                rep.case(("inside", cont, tuple(inp["ys"]), inp["a"], inp["b"], inp["confidence"], inp["method"], nn, q, mn))
+                if not (t_hi == t_hi and t_lo == t_lo and mv is not None and ext_key(t_hi) <= ext_key(mv) <= ext_key(t_lo)):
+                    rep.violate(what="a CDF inside the CDF band (levels (L+U)/2) has its quantile tuning curve outside [hi.quantile_tuning_curve, "
+                                     "lo.quantile_tuning_curve]", input=dict(inp, n=nn, q=q, minimize=mn, level=level),
+                                expected=f"hi curve <= {mv} <= lo curve", observed=[t_hi, t_lo],
+                                call="EmpiricalDistribution.confidence_bands(...)[0 and 2].quantile_tuning_curve")
         else:
             for i, (nn, q, mn, level) in enumerate(mt["lv"]):
                 mv, margin = C.parse_ext(r[2 * i]), C.parse_ext(r[2 * i + 1])
@@ -188,7 +305,7 @@ def run(seed, tier, replay=None):
                 with warnings.catch_warnings():
                     warnings.simplefilter("ignore")
                     iv = d.quantile_tuning_curve(nn, q=q, minimize=mn)
-                rep.case(("qtc", mt["name"], tuple(inp["ys"]), inp["a"], inp["b"], inp["confidence"], inp["method"], nn, q, mn))
+                rep.case(("qtc", cont, mt["name"], tuple(inp["ys"]), inp["a"], inp["b"], inp["confidence"], inp["method"], nn, q, mn))
                 if not same_value(iv, mv):
                     rep.violate(what=f"{mt['name']} band: quantile_tuning_curve is not the band distribution's ppf at the best-of-n level",
                                 input=dict(inp, n=nn, q=q, minimize=mn, band=mt["name"]), expected=str(mv), observed=float(iv),
@@ -197,7 +314,11 @@ def run(seed, tier, replay=None):
         rule="samples of 1-40 points (ties, rounded, constant, wide), bounds at min/max/beyond/infinite, confidence in {0,1,1e-12,1-1e-12,"
              ".5,.9,.95,random}; dkw/ks everywhere, ld_* on a few small samples (100 000-trial simulation replayed from a cloned "
              "generator through the public beta helpers). Per case: every band cdf at all atoms/neighbours/midpoints/±inf vs the exact "
-             "band model, quantile curves vs the model's ppf, bracket, point estimate, permutation, strictly increasing map, widening.",
+             "band model, quantile curves vs the model's ppf, bracket, point estimate, permutation, strictly increasing map, widening. "
+             "Quantile curves also at best-of-n levels within 1e-16..1e-7 of 0 and of 1 (reached through tiny q / q next to 1, or through "
+             "n in ~0.01..0.1 / 1e7..1e14), incl. a CDF inside the band (levels (L+U)/2) judged exactly against the code's hi/lo curves. "
+             "Container stratum: integer-valued unsorted samples as Python ints, every integer dtype (signed and unsigned) that holds them "
+             "and float32, each judged by the same exact band model as the float64 sample.",
         extra=dict(driver_lines=drv.lines))
 
 
